@@ -158,9 +158,26 @@ def _worker(args: Tuple[int, List[Dict[str, Any]], str, Dict[str, Any]]) -> Dict
         finally:
             signal.alarm(0)
     path = os.path.join(outdir, "cases-%02d.json" % shard)
+    derived: Dict[str, Any] = {}
+    for key, spec in (opts.get("derive") or {}).items():
+        mod, fn = spec.split(":")
+        f_ = getattr(importlib.import_module(mod), fn)
+        recs, index = [], []
+        for ci, c in enumerate(cases):
+            for r in f_(c):
+                recs.append(r)
+                index.append(ci + 1)
+        dp = os.path.join(outdir, "%s-%02d.json" % (key, shard))
+        with open(dp, "w") as f:
+            json.dump(recs, f, separators=(",", ":"))
+        derived[key] = {"path": dp, "n": len(recs), "index": index}
+    if opts.get("drop_cases"):
+        cases_out: List[Any] = []
+    else:
+        cases_out = cases
     with open(path, "w") as f:
-        json.dump(cases, f, separators=(",", ":"))
-    return {"shard": shard, "path": path, "ncases": len(cases), "summary": summary}
+        json.dump(cases_out, f, separators=(",", ":"))
+    return {"shard": shard, "path": path, "ncases": len(cases), "summary": summary, "derived": derived}
 
 
 def _one(inp: Dict[str, Any], pids: PayloadIds, t0: float, opts: Dict[str, Any], hook: Any, cases: List[Any], summary: List[Any]) -> None:
@@ -207,6 +224,8 @@ def record_domain(
     events: bool = False,
     hook: Optional[str] = None,
     cap: int = 60,
+    derive: Optional[Dict[str, str]] = None,
+    drop_cases: bool = False,
 ) -> List[Dict[str, Any]]:
     """Run the real code over `inputs` in `jobs` processes; write `shards`
     JSON files under outdir; return per-shard results (path, summaries)."""
@@ -217,7 +236,7 @@ def record_domain(
     order = sorted(range(len(inputs)), key=lambda i: -len(inputs[i].get("g", [])))
     for j, i in enumerate(order):
         parts[j % shards].append(inputs[i])
-    opts = {"stages": stages, "events": events, "hook": hook, "cap": cap}
+    opts = {"stages": stages, "events": events, "hook": hook, "cap": cap, "derive": derive, "drop_cases": drop_cases}
     tasks = [(k, parts[k], outdir, opts) for k in range(shards)]
     ctx = mp.get_context("fork")
     with ctx.Pool(min(jobs, shards)) as pool:
